@@ -278,6 +278,104 @@ func offsets(bs []*proto.NotificationBatch) []int64 {
 	return o
 }
 
+// ackAll: a follower that stores and acknowledges every entry.
+type ackAll struct{}
+
+func (ackAll) Replicate(stream proto.OxiaLogReplication_ReplicateServer) error {
+	for {
+		a, err := stream.Recv()
+		if err != nil {
+			return err
+		}
+		if err := stream.Send(&proto.Ack{Offset: a.Entry.Offset}); err != nil {
+			return err
+		}
+	}
+}
+func (ackAll) SendSnapshot(proto.OxiaLogReplication_SendSnapshotServer) error {
+	return fmt.Errorf("unexpected snapshot")
+}
+func (ackAll) Truncate(req *proto.TruncateRequest) (*proto.TruncateResponse, error) {
+	return &proto.TruncateResponse{HeadEntryId: req.HeadEntryId}, nil
+}
+
+// firstSub: a subscriber that connects without a start offset. The first batch it is handed tells it where it
+// is positioned; that position must not be ahead of what is committed at that moment (entries in the log that
+// commit later would otherwise never be announced to it, and it cannot have read them either).
+type firstSub struct {
+	sub
+	lc  server.LeaderController
+	s   *vsched.Sched
+	pos int64
+}
+
+func (f *firstSub) OnNext(b *proto.NotificationBatch) error {
+	if len(f.got) == 0 {
+		f.pos = b.Offset
+		if _, _, commit, ok := server.VerifPeekTracker(f.lc); ok && b.Offset > commit {
+			f.s.Fail("fresh-subscriber-positioned-beyond-commit-offset", fmt.Sprintf("a subscriber without a start offset is positioned on offset %d while the commit offset is %d: the batches of the entries in between will never reach it", b.Offset, commit))
+		}
+	}
+	return f.sub.OnNext(b)
+}
+
+func freshSubscriberBody(writers int) func(s *vsched.Sched) {
+	return func(s *vsched.Sched) {
+		s.Explore(false)
+		env := oxc.NewEnv(s)
+		net := oxc.NewNet()
+		net.Peers["f1"], net.Peers["f2"] = ackAll{}, ackAll{}
+		kvf := oxc.NewObsFactory(env.Dir)
+		lc, err := server.NewLeaderController(server.Config{NotificationsRetentionTime: time.Hour}, "ns", 1, net, env.WalFactory("n1", 64*1024, true), kvf)
+		if err == nil {
+			_, err = lc.NewTerm(&proto.NewTermRequest{Namespace: "ns", Shard: 1, Term: 1, Options: &proto.NewTermOptions{EnableNotifications: true}})
+		}
+		if err == nil {
+			none := &proto.EntryId{Term: -1, Offset: -1}
+			_, err = lc.BecomeLeader(context.Background(), &proto.BecomeLeaderRequest{Namespace: "ns", Shard: 1, Term: 1, ReplicationFactor: 3,
+				FollowerMaps: map[string]*proto.EntryId{"f1": none, "f2": none}})
+		}
+		if err == nil {
+			_, err = lc.WriteBlock(context.Background(), &proto.WriteRequest{Shard: oxh.I64(1), Puts: []*proto.PutRequest{{Key: "pre", Value: []byte("x")}}})
+		}
+		if err != nil {
+			s.Fail("harness-setup", err.Error())
+			return
+		}
+		s.Settle()
+		s.Explore(true)
+		acked := 0
+		for w := 0; w < writers; w++ {
+			w := w
+			vsched.Go(func() {
+				if _, err := lc.WriteBlock(context.Background(), &proto.WriteRequest{Shard: oxh.I64(1), Puts: []*proto.PutRequest{{Key: fmt.Sprintf("k%d", w), Value: []byte("v")}}}); err == nil {
+					acked++
+				}
+			})
+		}
+		fs := &firstSub{lc: lc, s: s, pos: -2}
+		fs.ctx, fs.cnl = context.WithCancel(context.Background())
+		vsched.Go(func() { lc.GetNotifications(fs.ctx, &proto.NotificationsRequest{Shard: 1}, fs) })
+		s.Settle()
+		s.Explore(false)
+		// everything after the position, up to the last committed write, in order
+		want := fs.pos + 1
+		for _, b := range fs.got[1:] {
+			if b.Offset != want {
+				s.Fail("notification-gap-or-duplicate", fmt.Sprintf("positioned on %d, the subscriber received batch offset %d where %d was expected (received %v)", fs.pos, b.Offset, want, offsets(fs.got)))
+				break
+			}
+			want++
+		}
+		if len(fs.got) > 0 && acked == writers && want != int64(writers)+1 {
+			s.Fail("notification-missing", fmt.Sprintf("positioned on %d, %d writes committed (offsets 1..%d), the subscriber received %v", fs.pos, writers, writers, offsets(fs.got)))
+		}
+		s.Data = fmt.Sprintf("pos=%d got=%v", fs.pos, offsets(fs.got))
+		fs.cnl()
+		_ = lc.Close()
+	}
+}
+
 func scenarios(tier string) []sched.Scenario {
 	cfg := vsched.Config{MaxSteps: 50000}
 	d := 2
@@ -285,6 +383,7 @@ func scenarios(tier string) []sched.Scenario {
 		{Name: "1writer", Cfg: cfg, MaxDev: d, Body: body(1, false)},
 		{Name: "2writers", Cfg: cfg, MaxDev: d, Body: body(2, false)},
 		{Name: "2writers-reconnect", Cfg: cfg, MaxDev: d, Body: body(2, true)},
+		{Name: "fresh-subscriber-vs-writes-in-flight", Cfg: cfg, MaxDev: d, Body: freshSubscriberBody(2)},
 		{Name: "offset-without-batch", Cfg: cfg, MaxDev: d, Body: gapBody()},
 		{Name: "trim-round-vs-commit", Cfg: cfg, MaxDev: 3, Body: trimBody(), HorizonKey: "subscriber-spins-without-receiving"},
 	}
